@@ -50,6 +50,7 @@ pub fn rop() -> impl Strategy<Value = ROp> {
     prop_oneof![
         4 => prop::sample::select(vec![1u32, 3, 64, 4096]).prop_map(ROp::Read),
         3 => prop::sample::select(vec![0u32, 1, 3, 1_000_000]).prop_map(ROp::Fill),
+        1 => prop::sample::select(vec![1u32, 3, 1_000_000]).prop_map(ROp::LowLevel),
         1 => Just(ROp::Yield),
     ]
 }
